@@ -595,6 +595,11 @@ class Models:
                     n = args[1]
                     return some(items[n]) if (not is_sym(n) and n < len(items)) else none()
                 raise Inconclusive('DoubleEndedIterator::%s' % name)
+            if tb == 'Read' and name == 'read_to_string':
+                h = TABLE.get('BufReader::read_to_string')
+                if h:
+                    self.called['Read::read_to_string'] = self.called.get('Read::read_to_string', 0) + 1
+                    return h(it, ci, args, dest_ty)
             if tb == 'Clone' and name == 'clone':
                 self.called['Clone::clone'] = self.called.get('Clone::clone', 0) + 1
                 return deep_clone(deref(args[0]))
@@ -1357,6 +1362,67 @@ def _hm(v):
 @model('HashMap::new', 'HashMap::default')
 def _(it, ci, a, d):
     return Opaque('HashMap', HashMapV())
+
+
+@model('HashMap::entry')
+def _(it, ci, a, d):
+    hm = _hm(a[0])
+    key = a[1]
+    if type(key) is not StringV:
+        raise Inconclusive('HashMap key %r' % (key,))
+    if key.guard is not None:
+        raise Inconclusive('HashMap::entry with a guarded key (copy loop over a symbolic table)')
+    return Opaque('HashEntry', {'hm': hm, 'key': key.s})
+
+
+def _entry_present(it, e):
+    hm, k = e['hm'], e['key']
+    old = hm.entries.get(k)
+    if old is None or old.present is False:
+        return None
+    if old.present is not True:
+        if not it.decide(old.present, 'hm_entry_present'):
+            return None
+        old.present = True
+    return old
+
+
+def _entry_insert(e, val):
+    hm, k = e['hm'], e['key']
+    hm.entries.pop(k, None)
+    hm.entries[k] = HEntry(StringV(k), True, [val])
+    return hm.entries[k]
+
+
+@model('Entry::or_insert', 'Entry::or_insert_with', 'Entry::or_default', 'Entry::or_insert_with_key')
+def _(it, ci, a, d):
+    e = deref(a[0]).data
+    old = _entry_present(it, e)
+    if old is None:
+        if ci.name == 'or_insert':
+            v = a[1]
+        elif ci.name == 'or_insert_with':
+            v = it.call_value(a[1], [])
+        elif ci.name == 'or_insert_with_key':
+            v = it.call_value(a[1], [Ref([StringV(e['key'])], 0)])
+        else:
+            raise Inconclusive('Entry::or_default')
+        old = _entry_insert(e, v)
+    return Ref(old.val, 0)
+
+
+@model('Entry::and_modify')
+def _(it, ci, a, d):
+    e = deref(a[0]).data
+    old = _entry_present(it, e)
+    if old is not None:
+        it.call_value(a[1], [Ref(old.val, 0)])
+    return a[0]
+
+
+@model('Entry::key')
+def _(it, ci, a, d):
+    return Ref([StringV(deref(a[0]).data['key'])], 0)
 
 
 @model('HashMap::insert')
